@@ -344,6 +344,38 @@ func check(r *ev.Run, c Case, g *resolve.Graph, tree *npm.VerifNode, nfired int,
 		q uni.Req
 		e resolve.Edge
 	}
+	// The install tree, indexed: Node's lookup of a name from a graph node.
+	treeByID := map[resolve.NodeID]*npm.VerifNode{}
+	treeParent := map[*npm.VerifNode]*npm.VerifNode{}
+	if tree != nil {
+		var index func(n *npm.VerifNode, depth int)
+		index = func(n *npm.VerifNode, depth int) {
+			if n.ID != 0 || depth == 0 {
+				treeByID[n.ID] = n
+			}
+			for _, ch := range n.Children {
+				treeParent[ch] = n
+				index(ch, depth+1)
+			}
+		}
+		index(tree, 0)
+	}
+	lookup := func(from resolve.NodeID, name string) (resolve.NodeID, bool) {
+		for d := treeByID[from]; d != nil; d = treeParent[d] {
+			for _, ch := range d.Children {
+				if ch.Name == name {
+					return ch.ID, true
+				}
+			}
+		}
+		return 0, false
+	}
+	lookupName := func(q uni.Req) string {
+		if q.KnownAs != "" {
+			return q.KnownAs
+		}
+		return q.Name
+	}
 	var pairs []matched
 	for id, nd := range g.Nodes {
 		x := u.Find(nd.Version.Name, nd.Version.Version)
@@ -370,8 +402,24 @@ func check(r *ev.Run, c Case, g *resolve.Graph, tree *npm.VerifNode, nfired int,
 			y := u.Find(g.Nodes[e.To].Version.Name, g.Nodes[e.To].Version.Version)
 			return y != nil && pkgOf(y) == q.Name
 		}
+		demandLookup := false
 		solve = func(i int) bool {
 			if i == len(reqs) {
+				if !demandLookup {
+					return true
+				}
+				// Relaxed matching is ambiguous (two requirements with the same
+				// range text): accept an assignment only if Node's lookup agrees
+				// with it; if none does, the first assignment is reported below.
+				for k, q := range reqs {
+					if assign[k] < 0 {
+						continue
+					}
+					e := edges[assign[k]]
+					if id, ok := lookup(e.From, lookupName(q)); !ok || id != e.To {
+						return false
+					}
+				}
 				return true
 			}
 			q := reqs[i]
@@ -412,13 +460,22 @@ func check(r *ev.Run, c Case, g *resolve.Graph, tree *npm.VerifNode, nfired int,
 			// An alias equal to a package name: the target may sit under the
 			// looked-up name without being a version of the required package.
 			relaxed = true
-			for k := range usedE {
-				usedE[k] = false
+			reset := func() {
+				for k := range usedE {
+					usedE[k] = false
+				}
+				for k := range usedErr {
+					usedErr[k] = false
+				}
 			}
-			for k := range usedErr {
-				usedErr[k] = false
-			}
+			reset()
+			demandLookup = tree != nil && !hasBundles
 			ok = solve(0)
+			if !ok && demandLookup {
+				demandLookup = false
+				reset()
+				ok = solve(0)
+			}
 		}
 		if !ok {
 			add("G2-missing", "node %s@%s: its requirements %v cannot be matched one-to-one to its %d out-edges and %d node errors", x.Name, x.Version, reqs, len(edges), len(errs))
@@ -513,7 +570,7 @@ func check(r *ev.Run, c Case, g *resolve.Graph, tree *npm.VerifNode, nfired int,
 		}
 		seenName := map[string]bool{}
 		for _, ch := range n.Children {
-			if seenName[ch.Name] && !hasBundles && c.Stratum != Collision {
+			if seenName[ch.Name] && !hasBundles {
 				add("T1-dup-name", "directory of %s holds two packages named %q", n.Name, ch.Name)
 			}
 			seenName[ch.Name] = true
@@ -532,11 +589,8 @@ func check(r *ev.Run, c Case, g *resolve.Graph, tree *npm.VerifNode, nfired int,
 			r.Sample(map[string]any{"stratum": c.Stratum, "root": c.Root, "universe_versions": len(u.Versions), "graph": g.String()})
 		}
 	}
-	if hasBundles || c.Stratum == Collision {
-		// Bundled sub-trees follow separate rules; with an alias equal to a
-		// real package name one directory name stands for two packages and the
-		// lookup clause has no single answer (observed: the same version
-		// installed once as itself and once under the colliding alias).
+	if hasBundles {
+		// Bundled sub-trees follow separate rules.
 		return
 	}
 	for _, p := range pairs {
